@@ -93,9 +93,16 @@ def run(args):
 
 def replay(args):
     c = json.load(open(args[0]))
-    r = one_case(c["cores"], c["days"], c.get("failing_spawn"))
-    print(f"spawn replay: rc={r['rc']} hung={r['hung']} fired={r['fired']}")
-    bad = r["hung"] or (r["fired"] and r["rc"] == 0) or (c.get("failing_spawn") is None and r["rc"] != 0)
+    k = c.get("failing_spawn")
+    if k is None:
+        # the fault-free comparison failed: parallel path vs one core
+        a, b = one_case(1, c["days"], None), one_case(c["cores"], c["days"], None)
+        print(f"spawn replay (fault-free): 1 core rc={a['rc']}, {c['cores']} cores rc={b['rc']} hung={b['hung']} same_output={a['out_sha'] == b['out_sha']}")
+        bad = a["rc"] != 0 or b["rc"] != 0 or b["hung"] or a["out_sha"] != b["out_sha"]
+    else:
+        r = one_case(c["cores"], c["days"], k)
+        print(f"spawn replay: rc={r['rc']} hung={r['hung']} fired={r['fired']}")
+        bad = r["hung"] or (r["fired"] and r["rc"] == 0)
     if bad:
         print(f"VIOLATION property=C15 replay={args[0]}")
         return 1
